@@ -11,6 +11,7 @@ fn main() {
     let r = match args.get(1).map(|s| s.as_str()).unwrap_or("") {
         "serde" => serde_check::run(args.get(2).expect("serde <file>")),
         "lu-replay" => linalg_check::lu_replay(args.get(2).expect("lu-replay <file>")),
+        "jacobi-replay" => linalg_check::jacobi_replay(args.get(2).expect("jacobi-replay <file>")),
         "linalg" => {
             let get = |n: &str, d: u64| args.iter().position(|a| a == n).and_then(|i| args.get(i + 1)).and_then(|x| x.parse().ok()).unwrap_or(d);
             linalg_check::run(get("--seed", 1), get("--samples", 60) as usize)
